@@ -533,6 +533,61 @@ here a 2-shard `from` merged into a 1-shard `to` leaves `7` behind in `from` -/
 theorem CNoIdx.moveContents_truncates :
     (CNoIdx.moveContents (⟨false, [[1], [7]]⟩ : CNoIdx Int) ⟨false, [[5]]⟩).2.shards.flatten = [5, 1] := by decide
 
+/-! ## `is_empty`: "definitely empty" is never claimed of an index that holds an entry -/
+
+private theorem flatMap_nil_of_all_isEmpty {α β : Type} (f : List α → List β) (hf : f [] = []) :
+    ∀ (l : List (List α)), l.all List.isEmpty = true → l.flatMap f = []
+  | [], _ => rfl
+  | x :: xs, h => by
+    simp only [List.all_cons, Bool.and_eq_true, List.isEmpty_iff] at h
+    rw [List.flatMap_cons, h.1, hf, flatMap_nil_of_all_isEmpty f hf xs h.2]; rfl
+
+/-- serial indices: `is_empty` is exactly "no entry" for maps whose keys all hold a value (the invariant
+`mergeStep_nonempty` maintains), and in any case `true` only if there is no entry -/
+theorem Idx.isEmpty_sound (m : Idx K V) (h : HMap.isEmpty m = true) : Idx.entries m = [] := by
+  have : m = [] := List.isEmpty_iff.mp h
+  subst this; rfl
+
+theorem FullIdx.isEmpty_iff (m : FullIdx K V) : HMap.isEmpty m = true ↔ m = [] := List.isEmpty_iff
+
+/-- concurrent indices: a frozen index that answers `is_empty = true` has no entry in ANY shard (the generated
+parallel code skips a rule on `true`: an answer computed from a sample of the shards would lose derivations) -/
+theorem CIdx.isEmpty_sound (c : CIdx V) (h : c.isEmpty = .ok true) : c.entries = [] := by
+  unfold CIdx.isEmpty at h
+  split at h
+  · cases h
+  · simp only [Res.ok.injEq] at h
+    exact flatMap_nil_of_all_isEmpty Idx.entries rfl c.shards h
+
+theorem CFullIdx.isEmpty_sound (c : CFullIdx V) (h : c.isEmpty = .ok true) : c.entries = [] := by
+  unfold CFullIdx.isEmpty at h
+  split at h
+  · cases h
+  · simp only [Res.ok.injEq] at h
+    exact flatMap_nil_of_all_isEmpty id rfl c.shards h
+
+theorem CLatIdx.isEmpty_sound (c : CLatIdx V) (h : c.isEmpty = .ok true) : c.entries = [] := by
+  unfold CLatIdx.isEmpty at h
+  split at h
+  · cases h
+  · simp only [Res.ok.injEq] at h
+    exact flatMap_nil_of_all_isEmpty Idx.entries rfl c.shards h
+
+/-- and a non-empty full index never answers `true` -/
+theorem CFullIdx.isEmpty_complete (c : CFullIdx V) (hf : c.frozen = true) (h : c.entries = []) : c.isEmpty = .ok true := by
+  unfold CFullIdx.isEmpty
+  simp only [hf, Bool.not_true, Bool.false_eq_true, if_false, Res.ok.injEq]
+  unfold CFullIdx.entries at h
+  rw [List.all_eq_true]
+  intro x hx
+  rw [List.isEmpty_iff]
+  have := List.flatMap_eq_nil_iff.mp h x hx
+  simpa using this
+
+/-- the combined total+delta view is empty only if both sides are -/
+theorem combinedIsEmpty_spec (a b : Bool) : combinedIsEmpty a b = true ↔ (a = true ∧ b = true) := by
+  simp [combinedIsEmpty]
+
 /-! ## non-vacuity -/
 example : NoDupKeys ([(1, [10, 11]), (2, [20])] : Idx Int Int) := by unfold NoDupKeys; decide
 example : (Idx.mergeStep ([(3, [30])] : Idx Int Int) [(1, [12, 13, 14]), (4, [40])] [(1, [10]), (2, [20])]) =
@@ -541,6 +596,12 @@ example : raceRun (CFullIdx.new 2 : CFullIdx Int) [(1, 10), (1, 11), (2, 20), (1
     some (⟨false, [[(2, 20)], [(1, 10)]]⟩, [true, false, true, false]) := by decide
 
 /-! ## axiom audit -/
+#print axioms Idx.isEmpty_sound
+#print axioms CIdx.isEmpty_sound
+#print axioms CFullIdx.isEmpty_sound
+#print axioms CFullIdx.isEmpty_complete
+#print axioms CLatIdx.isEmpty_sound
+#print axioms combinedIsEmpty_spec
 #print axioms Idx.insert_noDup
 #print axioms Idx.get_insert
 #print axioms Idx.get_of_inserts
